@@ -310,7 +310,7 @@ func VerifE2E(dir, name string, schema *databasev1.Stream, batches [][]VerifE2ER
 		return nil, err
 	}
 	seg.DecRef()
-	time.Sleep(150 * time.Millisecond)
+	time.Sleep(100 * time.Millisecond)
 
 	st := &stream{schema: schema}
 	st.tsdb.Store(db)
